@@ -134,13 +134,7 @@ def run(repo: Repo, rep: Report) -> None:
            "evaluation state is cleared on every exit" if ok and not others else "Expr.eval leaves evaluation state on the expression node (%s)" % ([norm(o) for o in others] or "ctx not cleared in finally"), node=f)
 
     # ------------------------------------------------------------------ (b)
-    rep.rule("C15.b-reordering-builds-new-list", "evalPart reorders BGP triples with sorted(part.triples, ...) into a new list", floor=1)
-    ev = repo.mod("rdflib.plugins.sparql.evaluate")
-    f = ev.func("evalPart")
-    srt = [c for c in ast.walk(f) if isinstance(c, ast.Call) and isinstance(c.func, ast.Name) and c.func.id == "sorted" and c.args and norm(c.args[0]).endswith(".triples")]
-    inplace = [c for c in ast.walk(f) if isinstance(c, ast.Call) and isinstance(c.func, ast.Attribute) and c.func.attr == "sort"]
-    rep.ob("C15.b-reordering-builds-new-list", ev, "evalPart", "triples = sorted(part.triples, key=...)", bool(srt) and not inplace,
-           "" if srt and not inplace else "BGP triples are reordered in place (or not through sorted())", node=f)
+    reordering_rule(repo, rep, is_alg_type)
 
     # ------------------------------------------------------------------ (c)
     rep.rule("C15.c-aggregate-path-evaluated-once",
@@ -225,6 +219,67 @@ EXEMPT_D = {
 }
 
 
+def reordering_rule(repo: Repo, rep: Report, is_alg_type) -> None:
+    """(b) the list of triple patterns a BGP node of the algebra holds is never reordered (or otherwise modified) in place"""
+    from vlib import h_c08 as H8
+    from vlib import h_c15 as H
+
+    RULE = "C15.b-reordering-builds-new-list"
+    rep.rule(RULE,
+             "evalPart - itself, or a function it hands the node or its triples to: called by name, through a local bound to a function, or looked up in a "
+             "module-level table of evaluators - reorders the triple patterns of a BGP by building a NEW list: the list the algebra node holds (`part.triples`, "
+             "also read as part[\"triples\"] / .get / getattr, followed through locals, parameters and returned values) is handed to sorted() (or copied, and the copy "
+             "sorted); in those functions no .sort()/.reverse()/shuffle()/other list mutator and no subscript store or del is applied to a value that may be the "
+             "held list, and, where the held list is handled, no in-place sort to a value that is not certainly a container made there. Sorting the algebra's own "
+             "list would make the second evaluation of a prepared query start from the order the first one left", floor=1)
+    ev = repo.mod("rdflib.plugins.sparql.evaluate")
+    entry = ev.func("evalPart")
+    flow = H.HeldListFlow(repo, "triples", is_alg_type, H8.resolve_function)
+    flow.run(ev, entry)
+    good: list = []
+    bad: list = []
+    for m, f, _nodes, _held in list(flow.fns.values()):
+        q = m.qual_of(f)
+        handles = f is entry or flow.handles_list(f)
+        if handles:
+            rep.analysed("%s:%s" % (m.rel, q))
+        for n in own_nodes(f, include_nested=True):
+            if isinstance(n, ast.Call):
+                tail = norm(n.func).split(".")[-1]
+                if isinstance(n.func, ast.Attribute) and tail in H.LIST_MUTATORS:
+                    cls = flow.classify(m, f, n.func.value)
+                    if cls == "held":
+                        bad.append((m, q, n, "`%s` is applied to the list the algebra node holds" % norm(n)[:60]))
+                    elif cls == "unknown" and handles and tail in H.REORDER_IN_PLACE:
+                        bad.append((m, q, n, "`%s` reorders in place a list that is not certainly one made in %s, which handles the algebra's list of triples" % (norm(n)[:60], q)))
+                    elif cls == "new" and tail in H.REORDER_IN_PLACE and flow.computed_from_list(m, f, n.func.value):
+                        good.append((m, q, n, "a copy of the held list is sorted"))
+                elif tail in H.IN_PLACE_FUNCTIONS and n.args and flow.classify(m, f, n.args[0]) == "held":
+                    bad.append((m, q, n, "`%s` reorders the list the algebra node holds" % norm(n)[:60]))
+                elif isinstance(n.func, ast.Name) and n.func.id == "sorted" and not H.is_local(f, "sorted") and H8.resolve_function(repo, m, "sorted") is None \
+                        and n.args and flow.classify(m, f, n.args[0]) == "held":
+                    good.append((m, q, n, "sorted() of the held list: a new list"))
+            tgs: list = []
+            if isinstance(n, ast.Assign):
+                tgs = list(n.targets)
+            elif isinstance(n, (ast.AugAssign, ast.AnnAssign)):
+                tgs = [n.target]
+            elif isinstance(n, ast.Delete):
+                tgs = list(n.targets)
+            for t in [x for tg in tgs for x in ([tg] if not isinstance(tg, (ast.Tuple, ast.List)) else ast.walk(tg))]:
+                if isinstance(t, ast.Subscript) and flow.classify(m, f, t.value) == "held":
+                    bad.append((m, q, n, "`%s` stores into / deletes from the list the algebra node holds" % norm(n)[:60]))
+                elif isinstance(n, ast.AugAssign) and isinstance(t, ast.Name) and flow.classify(m, f, t) == "held":
+                    bad.append((m, q, n, "`%s` extends in place the list the algebra node holds" % norm(n)[:60]))
+    for m, q, n, why in good:
+        rep.ob(RULE, m, q, n, True, why, node=n)
+    for m, q, n, why in bad:
+        rep.ob(RULE, m, q, n, False, "BGP triples are reordered in place: %s - a prepared query evaluated again starts from the order this evaluation left" % why, node=n)
+    if not good and not bad:
+        rep.ob(RULE, ev, "evalPart", "triples = sorted(part.triples, key=...)", False,
+               "BGP triples are reordered in place (or not through sorted()): no function that evalPart hands a BGP node or its triples to passes the list the node holds through sorted()", node=entry)
+
+
 def translation_cache_rule(repo: Repo, rep: Report, RULE: str, which: tuple) -> None:
     """results of translateQuery / translateUpdate are per call unless keyed completely"""
     rep.rule(RULE,
@@ -284,11 +339,13 @@ def translation_cache_rule(repo: Repo, rep: Report, RULE: str, which: tuple) -> 
         raise AnalysisError("processor.py: no call to %s found" % "/".join(which))
 
 
+from vlib.core import layer as _layer  # noqa: E402
+
 _run_base = run
 
 
 def run(repo: Repo, rep: Report) -> None:  # noqa: F811
-    _run_base(repo, rep)
+    _layer(rep, _run_base, repo)
     sp = repo.mod("rdflib.plugins.sparql.sparql")
     pm = repo.mod("rdflib.plugins.sparql.parser")
     # ------------------------------------------------------------------ (g)
@@ -786,7 +843,7 @@ _run_base2 = run
 
 
 def run(repo: Repo, rep: Report) -> None:  # noqa: F811
-    _run_base2(repo, rep)
+    _layer(rep, _run_base2, repo)
     rep.extra["explanation"] = rep.extra.get("explanation", "") + (
         " (i) a domain-sensitive test on solutions (disjointDomain, i.e. MINUS) sees an operand restricted to its own `_vars`, not the bindings pushed in from outside; "
         "(j) relative IRI references are recognised by the absence of a scheme (the regular expression is probed), never by a ':' substring test; "
@@ -800,11 +857,216 @@ def run(repo: Repo, rep: Report) -> None:  # noqa: F811
 
 
 
+# ====================================================================================================================
+# rules m-o: pinned from repaired defects F303-F305
+# ====================================================================================================================
+PROLOGUE_CLS = "rdflib.plugins.sparql.sparql.Prologue"
+PARSE_TREE = ("rdflib.plugins.sparql.parserutils.CompValue", "pyparsing.results.ParseResults")
+
+
+def _typed_as(repo: Repo, modname: str, e: ast.AST, classes: tuple) -> bool:
+    tf = repo.typed.type_of(modname, e)
+    return tf is not None and any(repo.typed.is_subclass(i, c) for i in tf.items for c in classes)
+
+
+# ------------------------------------------------------------------------------------------------------------------ (m)
+def rule_m(repo: Repo, rep: Report) -> None:
+    RULE = "C15.m-declared-iri-is-resolved-before-it-enters-the-prologue"
+    rep.rule(RULE,
+             "the IRI references of a request are resolved by Prologue.absolutize (the method that builds `URIRef(x, base=self.base)`); the traversal that applies it "
+             "covers the body of the request, not its declarations, so what a prologue keeps for later resolutions - its `.base`, and the namespaces handed to `.bind` - "
+             "is, whenever it is read from the parse tree (an attribute of a CompValue / ParseResults-typed value), first passed through that method OF THE SAME "
+             "prologue: the reference is resolved against the base in effect. A declaration stored as written makes everything resolved against it relative: "
+             "`BASE <http://e/a/> BASE <b/> SELECT * { <x> ?p ?o }` (or base='http://e/a/' and `BASE <b/>`) asks for <b/x> instead of <http://e/a/b/x>, "
+             "so the spellings <x> and <http://e/a/b/x> of one IRI give different answers", floor=8)
+    sp = repo.mod("rdflib.plugins.sparql.sparql")
+    resolvers = set()
+    for name, fn in sp.methods("Prologue").items():
+        for c in own_nodes(fn):
+            if isinstance(c, ast.Call) and norm(c.func).split(".")[-1] == "URIRef":
+                b = [k.value for k in c.keywords if k.arg == "base"] + list(c.args[1:2])
+                if any(isinstance(x, ast.Attribute) and x.attr == "base" and isinstance(x.value, ast.Name) and x.value.id == H.params_of(fn)[0] for x in b):
+                    resolvers.add(name)
+    if not resolvers:
+        raise AnalysisError("anchor vanished: no method of Prologue resolves a reference against self.base")
+    n_tree = 0
+    for m in _sparql_mods(repo):
+        for q, f in m.functions():
+            sinks: list[tuple[ast.AST, ast.expr, ast.expr, str]] = []  # (site, prologue expression, value, what)
+            for n in own_nodes(f):
+                if isinstance(n, (ast.Assign, ast.AnnAssign, ast.AugAssign)) and n.value is not None:
+                    for t in (n.targets if isinstance(n, ast.Assign) else [n.target]):
+                        if isinstance(t, ast.Attribute) and t.attr == "base" and _typed_as(repo, m.name, t.value, (PROLOGUE_CLS,)):
+                            sinks.append((n, t.value, n.value, "the base"))
+                if isinstance(n, ast.Call) and isinstance(n.func, ast.Attribute) and n.func.attr == "bind" and _typed_as(repo, m.name, n.func.value, (PROLOGUE_CLS,)):
+                    v = n.args[1] if len(n.args) >= 2 else next((k.value for k in n.keywords if k.arg == "uri"), None)
+                    if v is None:
+                        raise AnalysisError("%s: cannot tell the namespace argument of %s in %s" % (RULE, norm(n)[:60], q))
+                    sinks.append((n, n.func.value, v, "a namespace"))
+            for site, recv, val, what in sinks:
+                rep.analysed("%s:%s" % (m.rel, q))
+                exprs = H4.closure(f, val)
+                # reads of the parse tree the value is computed from, and those of them that lie inside an argument of the resolver
+                reads = [x for e in exprs for x in ast.walk(e) if isinstance(x, (ast.Attribute, ast.Subscript)) and _typed_as(repo, m.name, x.value, PARSE_TREE)]
+                clean: set[int] = set()
+                for e in exprs:
+                    for c in ast.walk(e):
+                        if isinstance(c, ast.Call) and isinstance(c.func, ast.Attribute) and c.func.attr in resolvers \
+                                and _typed_as(repo, m.name, c.func.value, (PROLOGUE_CLS,)) and norm(c.func.value) == norm(recv):
+                            clean |= {id(x) for a in list(c.args) + [k.value for k in c.keywords] for x in ast.walk(a)}
+                raw = [x for x in reads if id(x) not in clean]
+                if reads:
+                    n_tree += 1
+                rep.ob(RULE, m, q, site, not raw,
+                       ("resolved against the base in effect first" if reads else "not read from the request's text (given from outside / copied from a prologue)") if not raw else
+                       "%s of the prologue is set from %s as it is written in the request, without %s.%s(): a relative reference in the declaration "
+                       "(`BASE <http://e/a/> BASE <b/>`, or base='http://e/a/' with `BASE <b/>`) is kept relative, and every IRI of the request that is then resolved against it "
+                       "is relative too - <x> no longer denotes <http://e/a/b/x>" % (what, norm(raw[0]), norm(recv), sorted(resolvers)[0]), node=site)
+    if n_tree < 2:
+        raise AnalysisError("anchor vanished: expected the BASE and the PREFIX declaration of the parse tree to reach a prologue, found %d such store(s)" % n_tree)
+
+
+# ------------------------------------------------------------------------------------------------------------------ (n)
+def rule_n(repo: Repo, rep: Report) -> None:
+    RULE = "C15.n-no-list-by-right-recursion-in-the-grammar"
+    rep.rule(RULE,
+             "pyparsing matches a grammar element that refers to itself by recursion, a dozen Python frames per level. That is harmless where every level costs the "
+             "request a bracket (`(` Expression `)`, `{` GroupGraphPattern `}`, `[` .. `]`: the element is followed by its closing token), but an element that can END "
+             "with itself - X ::= A ( sep X? )?, the EBNF way to write a list - recurses once per list item: the W3C rules TriplesBlock / ConstructTriples / TriplesTemplate "
+             "written that way raise RecursionError at about 90 '.'-separated triple patterns, while the same patterns written with ';' or ',' (ZeroOrMore) parse, so "
+             "whether a query has an answer depends on how it is written. For every Forward() of the grammar: following tail positions (`A + B` -> B, and A when B can "
+             "match nothing; `A | B` -> both; Optional/ZeroOrMore/Group/Param/Comp/decorations -> their operand; names -> their definitions) never leads back to it", floor=5)
+    pm = repo.mod("rdflib.plugins.sparql.parser")
+    gr = H4.Grammar(pm)
+    fwd = sorted(n for n, vs in gr.defs.items() if any(isinstance(v, ast.Call) and norm(v.func).split(".")[-1] == "Forward" for v in vs))
+    if not fwd:
+        raise AnalysisError("anchor vanished: the SPARQL grammar declares no Forward() element")
+    for x in fwd:
+        body = [v for v in gr.defs[x] if not (isinstance(v, ast.Call) and norm(v.func).split(".")[-1] == "Forward")]
+        if not body:
+            raise AnalysisError("%s: the Forward() element %s of the grammar is never given a definition (`%s <<= ...`)" % (RULE, x, x))
+        cyc = H.g_tail_cycle(gr.defs, x)
+        rep.ob(RULE, pm, "<grammar>", "%s <<= %s" % (x, norm(body[-1])[:200]), cyc is None,
+               "every recursion through %s is closed by a token of its own" % x if cyc is None else
+               "the grammar rule %s can end with itself (%s): it is parsed by one level of Python recursion per list item, so about 90 items separated by '.' raise "
+               "RecursionError while the same request written with ';' / ',' parses - write it as an iteration (ZeroOrMore)" % (x, " -> ".join(cyc)), node=body[-1])
+
+
+# ------------------------------------------------------------------------------------------------------------------ (o)
+def rule_o(repo: Repo, rep: Report) -> None:
+    RULE = "C15.o-derived-context-carries-the-execution-state"
+    rep.rule(RULE,
+             "a method of a class of the SPARQL package that answers with a NEW instance of its own class (`r = C(...); ...; return r`: QueryContext.clone, behind push / "
+             "pushGraph / thaw / clean - one per solution and per nested pattern) hands over all of the execution's state: every attribute that C.__init__ sets "
+             "unconditionally to a value computed from none of its parameters (a placeholder or a fresh container: prologue, the blank-node map, the time of the execution) "
+             "is assigned on the new instance from `self`; and where the attribute is a slot that some method fills on first use (`if self.X is None: self.X = ...`), the "
+             "copy takes it through that method, not the possibly still empty slot. Otherwise each derived context fills the slot by itself: "
+             "`SELECT * { ?s ?p ?o BIND(NOW() AS ?t) }` gives a different ?t per row, and `FILTER(?t = NOW())` is true or false depending on where in the pattern it is written", floor=3)
+    n_copy = 0
+    for m in _sparql_mods(repo):
+        for cname, cnode in m.defs.items():
+            if not isinstance(cnode, ast.ClassDef) or "." in cname:
+                continue
+            meths = m.methods(cname)
+            init = meths.get("__init__")
+            if init is None:
+                continue
+            iparams = set(H.all_params(init)[1:])
+            stores: dict[str, list] = {}
+            for attr, st, val in H.self_attr_stores(init):
+                stores.setdefault(attr, []).append((st, val))
+            state = []
+            for attr, lst in sorted(stores.items()):
+                free = all(any(st is s_ for s_ in init.body) and val is not None and not isinstance(st, ast.AugAssign)
+                           and not any(isinstance(x, ast.Name) and x.id in iparams for x in H4.closure_nodes(init, val)) for st, val in lst)
+                if free:
+                    state.append(attr)
+            # slots filled on first use: attribute -> the methods that do it
+            fillers: dict[str, set[str]] = {}
+            own_memo: set[str] = set()
+            for mname, fn in meths.items():
+                if mname == "__init__":
+                    continue
+                for attr, st, _v in H.self_attr_stores(fn):
+                    me = H.params_of(fn)[0]
+                    for p in m.parents(st):
+                        if p is fn:
+                            break
+                        if isinstance(p, ast.If) and any(isinstance(c, ast.Compare) and len(c.ops) == 1 and isinstance(c.ops[0], ast.Is) and norm(c.left) == "%s.%s" % (me, attr)
+                                                         and isinstance(c.comparators[0], ast.Constant) and c.comparators[0].value is None for c in ast.walk(p.test)):
+                            fillers.setdefault(attr, set()).add(mname)
+                            # filled from the instance's own content (a memo, e.g. of its hash): not the execution's, a copy with other content must not inherit it
+                            if any(isinstance(x, ast.Name) and x.id == me and not (isinstance(m.parent.get(id(x)), ast.Attribute) and m.parent[id(x)].attr == attr)  # type: ignore[union-attr]
+                                   for s_ in p.body for x in ast.walk(s_)):
+                                own_memo.add(attr)
+            for mname, fn in meths.items():
+                if mname == "__init__" or not H.params_of(fn):
+                    continue
+                me = H.params_of(fn)[0]
+
+                def makes_own(e: ast.AST) -> bool:
+                    return isinstance(e, ast.Call) and (norm(e.func) == cname or norm(e.func) in ("type(%s)" % me, "%s.__class__" % me))
+
+                direct = [r for r in own_nodes(fn) if isinstance(r, ast.Return) and r.value is not None and makes_own(r.value)]
+                named = {}
+                for r in own_nodes(fn):
+                    if isinstance(r, ast.Return) and isinstance(r.value, ast.Name):
+                        if any(makes_own(v) for v in H4.local_defs(fn, r.value.id)):
+                            named[r.value.id] = r
+                if not direct and not named:
+                    continue
+                if not [a for a in state if a not in own_memo]:
+                    continue
+                n_copy += 1
+                rep.analysed("%s:%s.%s" % (m.rel, cname, mname))
+                for attr in state:
+                    if attr in own_memo:
+                        continue
+                    if direct:
+                        rep.ob(RULE, m, "%s.%s" % (cname, mname), direct[0], False,
+                               "the new %s is returned as constructed: its .%s is the constructor's placeholder, not the one of the execution" % (cname, attr), node=direct[0])
+                        continue
+                    for rname, ret in sorted(named.items()):
+                        sets = [n for n in own_nodes(fn) if isinstance(n, (ast.Assign, ast.AnnAssign)) and n.value is not None
+                                and any(isinstance(t, ast.Attribute) and t.attr == attr and isinstance(t.value, ast.Name) and t.value.id == rname
+                                        for t in (n.targets if isinstance(n, ast.Assign) else [n.target]))]
+                        from_self = [n for n in sets if any(isinstance(x, ast.Name) and x.id == me for x in H4.closure_nodes(fn, n.value))]
+                        why = None
+                        if not from_self:
+                            why = ("the new %s keeps the placeholder __init__ gives .%s (nothing of `%s` is assigned to it): the state of the execution is not handed over, each derived "
+                                   "context computes its own" % (cname, attr, me))
+                        elif attr in fillers:
+                            forced = [n for n in from_self if any(isinstance(x, ast.Attribute) and x.attr in fillers[attr] and isinstance(x.value, ast.Name) and x.value.id == me
+                                                                  for x in H4.closure_nodes(fn, n.value))]
+                            if not forced:
+                                why = ("the slot .%s is copied as it is, possibly still empty (it is filled on first use by %s): each derived context then fills it by itself"
+                                       % (attr, "/".join(sorted(fillers[attr]))))
+                        rep.ob(RULE, m, "%s.%s" % (cname, mname), "%s.%s is handed over to the new %s" % (me, attr, cname), why is None,
+                               "assigned from %s" % me if why is None else why + " - NOW() differs between the solutions of one evaluation", node=(from_self or sets or [ret])[0])
+    if n_copy == 0:
+        raise AnalysisError("anchor vanished: no class of the SPARQL package derives a new instance of itself (QueryContext.clone)")
+
+
+_run_base3 = run
+
+
+def run(repo: Repo, rep: Report) -> None:  # noqa: F811
+    _layer(rep, _run_base3, repo)
+    rep.extra["explanation"] = rep.extra.get("explanation", "") + (
+        " (m) what a prologue keeps from the declarations of the request (base, namespaces) has passed through Prologue.absolutize of that prologue; "
+        "(n) no Forward() element of the SPARQL grammar can end with itself (a list written as a right recursion); "
+        "(o) a context derived from another one (QueryContext.clone) is assigned every parameter-independent attribute of __init__ from the original, lazily filled slots through their filler."
+    )
+    rule_m(repo, rep)
+    rule_n(repo, rep)
+    rule_o(repo, rep)
+
+
 _run_before_borrow = run
 
 
 def run(repo: Repo, rep: Report) -> None:  # noqa: F811
-    _run_before_borrow(repo, rep)
+    _layer(rep, _run_before_borrow, repo)
     from vlib.core import borrow
 
     borrow(repo, rep, "C15", "C18", ('C18.g', 'C18.j'))
